@@ -1,3 +1,5 @@
+#[cfg(cachelito_verif)]
+use crate::verif_seams::sim_std as std;
 use crate::CacheEntry;
 use parking_lot::RwLockWriteGuard;
 use std::collections::{HashMap, VecDeque};
